@@ -9,7 +9,7 @@ NATIVE_OP = {"div": "div", "checked_div": "cdiv", "div_rounded": "drnd", "mul_ro
 
 def operand(st, name, ty, scale, sign, restrict=True):
     """symbolic operand: Decimal (ty == 'Decimal') at given scale or integer of type ty; returns (value, coeff term, scale)"""
-    if ty == "Decimal":
+    if ty in ("Decimal", "ArchivedDecimal"):
         d = sym_decimal(name, st, scale)
         t = d.fields[0].t
         v = d
